@@ -430,7 +430,12 @@ func (w *world) callback(t *task) func() {
 		if len(t.runs) > 1 {
 			w.fail("at-most-once", fmt.Sprintf("task %d ran %d times", t.tag, len(t.runs)), map[string]string{"oracle": "double-run"})
 		}
-		if now.Before(t.due) && !(w.ignore && !now.Before(w.ignAt)) {
+		// A due time that was handed over without monotonic reading (represent: w, u, a) is an instant of the wall clock:
+		// Poll arms its timer with the wall-clock distance, so a step of the wall clock between the start of the case and
+		// the poll (the clock of the virtual machine is corrected after its stalls: 1.14 ms seen once in 18 000 cases)
+		// moves the delivery on the monotonic scale.  Such a task is early only if it is early on both scales
+		// (now.Before(wall-only value) compares wall-clock readings).
+		if now.Before(t.due) && now.Before(t.arg()) && !(w.ignore && !now.Before(w.ignAt)) {
 			w.fail("never-early", fmt.Sprintf("task %d ran %v before its time", t.tag, t.due.Sub(now)), map[string]string{"oracle": "early"})
 		}
 		if t.cancelTrue {
@@ -996,6 +1001,11 @@ func runOnce(lines []string, unit time.Duration) (res caseResult) {
 			sleepUntil(target.Add(unit / 2))
 			if ans != "bad-op" {
 				ans += " sz=" + strconv.Itoa(w.te.Size())
+			}
+			// Size() is meant to be read half a unit after the operation: a read that comes a quarter unit late (this
+			// goroutine was not scheduled although the canary was) may see the next instant's state
+			if time.Since(target.Add(unit/2)) > unit/4 {
+				w.slowCall.Store(true)
 			}
 			opDone <- opRes{ans}
 		}()
@@ -2794,7 +2804,11 @@ func runQSess(r *rec, sub uint64, producers, consumers, m int, fl string, reps i
 						it.h.Cancel()
 						ca := time.Now()
 						it.cancelAt.Store(us(ca) + 1)
-						if ca.Add(time.Millisecond).Before(it.due) {
+						// the trace says "cancelled" only where the order of the log is the order of the events: the
+						// Cancel returned well before the time of the element and no Shutdown(IgnorePendingTimeouts) has
+						// been called (with the flag Poll hands the element out at once; a consumer that got it just before
+						// the Cancel may write its "deliver" after this line - seen once in the thorough tier)
+						if ca.Add(time.Millisecond).Before(it.due) && ignoreAt.Load() == 0 {
 							logf("cancelled %d", it.x)
 						}
 					}
